@@ -148,15 +148,13 @@ def read_ndjson(path):
                 yield json.loads(line)
 
 
-def validate_trace(module, trace_file, *, name, wd, cfg=None, timeout=3600, xmx="4g"):
-    """Binding B: validate an ndjson trace against a trace spec. Returns (accepted, matched_prefix_len, Tlc)."""
+def validate_records(module, trace_file, *, name, wd, cfg=None, timeout=3600, xmx="4g"):
+    """Binding B for record streams: every record is judged; returns (list of rejected 1-based indices, Tlc)."""
     r = tlc(module, cfg, name=name, wd=wd, workers=1, env={"TRACE": trace_file}, deque=True, timeout=timeout, xmx=xmx)
-    m = re.search(r'<<"UNMATCHED", (\d+)', r.text)
-    if r.ok and not m:
-        return True, None, r
-    if m:
-        return False, int(m.group(1)), r
-    raise ToolError(f"trace validation of {trace_file} against {module} failed to run:\n{r.error}")
+    if not r.ok:
+        raise ToolError(f"trace validation of {trace_file} against {module} failed to run:\n{r.error}")
+    rej = [int(x) for x in re.findall(r'<<"REJECT", (\d+)>>', r.text)]
+    return sorted(set(rej)), r
 
 
 class Check:
